@@ -41,6 +41,9 @@ def plan(tier, seed):
              + [("val_%d" % r["id"], r["reaction"]) for r in _corpus.stratified_sample(rng, 80 if quick else 800)]
              + [("mcs", rx) for rx in ("CC(=O)OCC>>CC(=O)O", "CC(=O)OC>>CC(=O)O", "CS(=O)(=O)OCC>>CCO",
                                        "CC(=O)NC>>CN", "c1ccccc1C(=O)OC>>OC") * (4 if quick else 30)])
+    # primary alcohol + water -> acid: the one template that only balances with coefficients
+    mixed += [("ox_prim_acid+w", "%sCO.O>>%sC(=O)O" % (r, r)) for r in rng.sample(G.R_GROUPS, 12 if quick else 24)
+              for _ in range(1 if quick else 4)]
     rng.shuffle(mixed)
     cases += rowlib.gen_cases(mixed, 12, [CFGS_Q[0], CFGS_Q[2]], "mixed")
     if not quick:
